@@ -733,3 +733,77 @@ pub fn smoke() {
     assert!(m.torrents.len() == 0);
     std::mem::forget(m);
 }
+
+// ------------------------------------------------------------------ C02: WebTorrent receiver selection
+
+/// `extract_response_peers` (the function that picks offer receivers) on a map of exactly N
+/// peers with small keys (u8 -> u8; the function is generic and never looks at the value),
+/// arbitrary limit, arbitrary sender key (present or not), every RNG state:
+/// result <= limit, distinct, members, never the sender; all others when they fit the limit,
+/// otherwise exactly `limit`.
+pub fn c02_ws_extract<const N: usize>() {
+    let keys: [u8; N] = kani::any();
+    let mut m: IndexMap<u8, u8> = Default::default();
+    let mut i = 0;
+    while i < N {
+        let mut j = 0;
+        while j < i {
+            kani::assume(keys[j] != keys[i]);
+            j += 1;
+        }
+        m.push_unchecked(keys[i], keys[i]);
+        i += 1;
+    }
+    let limit: usize = kani::any();
+    kani::assume(limit <= N + 2);
+    let sender: u8 = kani::any();
+    let mut rng = any_rng();
+    let v: Vec<u8> = extract_response_peers(&mut rng, &m, limit, sender, |k, _| *k);
+    let mut others = 0usize;
+    let mut i = 0;
+    while i < N {
+        if keys[i] != sender {
+            others += 1;
+        }
+        i += 1;
+    }
+    let k = v.len();
+    assert!(k <= limit, "more receivers than the limit");
+    if others <= limit {
+        assert!(k == others, "all other members must be selected when they fit the limit");
+    } else {
+        assert!(k == limit, "exactly limit receivers must be selected from a larger swarm");
+    }
+    assert!(k <= N, "harness bound");
+    let mut out = [0u8; N];
+    let mut i = 0;
+    while i < N {
+        if i < k {
+            out[i] = v[i];
+        }
+        i += 1;
+    }
+    let mut i = 0;
+    while i < N {
+        if i < k {
+            assert!(out[i] != sender, "sender selected as its own receiver");
+            let mut member = false;
+            let mut dup = 0usize;
+            let mut j = 0;
+            while j < N {
+                if keys[j] == out[i] {
+                    member = true;
+                }
+                if j < k && out[j] == out[i] {
+                    dup += 1;
+                }
+                j += 1;
+            }
+            assert!(member, "selected receiver is not a stored member");
+            assert!(dup == 1, "receiver selected twice");
+        }
+        i += 1;
+    }
+    kani::cover!(N < 3 || (others > limit && limit >= 1), "random selection branch");
+    std::mem::forget(v);
+}
